@@ -193,6 +193,31 @@ func (e *Enc) siteClosure(fr *Frame, mc *ssa.MakeClosure, fv *FuncV) {
 	if e.fc == nil || len(e.fc.Sites) == 0 || fr != e.top {
 		return
 	}
+	// closures that are only ever called directly are encoded inline at their call sites; the
+	// site obligations are generated there, with the precise state and arguments
+	direct := true
+	if refs := mc.Referrers(); refs != nil {
+		for _, r := range *refs {
+			switch x := r.(type) {
+			case *ssa.DebugRef:
+			case ssa.CallInstruction:
+				if x.Common().Value != ssa.Value(mc) {
+					direct = false
+				}
+				if _, isGo := r.(*ssa.Go); isGo {
+					direct = false
+				}
+				if _, isDefer := r.(*ssa.Defer); isDefer {
+					direct = false
+				}
+			default:
+				direct = false
+			}
+		}
+	}
+	if direct {
+		return
+	}
 	e.closureFnSites(fr, fv.Fn)
 }
 
